@@ -160,6 +160,13 @@ fn within(got: &Accepts, v4: &[String], v6: &[String]) -> bool {
 /// One transition of the model: real plan, reference apply, all invariants.
 #[allow(clippy::too_many_lines)]
 pub fn step(a: &Alphabet, state: &Instance, installed_xml: &str, input: &[Status]) -> StepResult {
+    step_from(a, state, installed_xml, input, false)
+}
+
+/// `foreign`: the installed state was not produced by the agent; only what every single update must
+/// guarantee on its own (C02, C03) is checked, not convergence (C01).
+#[allow(clippy::too_many_lines)]
+pub fn step_from(a: &Alphabet, state: &Instance, installed_xml: &str, input: &[Status], foreign: bool) -> StepResult {
     let mut findings = Vec::new();
     let mut applies = 0u64;
     let ents = entries(a, input);
@@ -244,6 +251,9 @@ pub fn step(a: &Alphabet, state: &Instance, installed_xml: &str, input: &[Status
         finals.push(s);
     }
     let new = finals.first().cloned().unwrap_or_else(|| state.clone());
+    if foreign {
+        return StepResult { next: None, findings, payloads: payloads.len(), applies };
+    }
     if finals.iter().any(|f| *f != new) {
         findings.push(Finding { property: "C01", key: "C01:update-order-dependent".into(), what: "the final configuration depends on the order in which the updates are applied".into(), case: case_json(a, state, input, json!({"payloads": payloads})) });
     }
@@ -428,6 +438,97 @@ pub fn alphabets(thorough: bool) -> Vec<Alphabet> {
     v
 }
 
+/// Installed states the agent did not produce: a regular two-family policy with ONE foreign
+/// modification (what an operator, another tool or an older version may have left in the instance).
+pub fn foreign_states() -> Vec<(&'static str, Instance)> {
+    use crate::junos::{Policy, Term};
+    let rf = |r: &str| -> crate::junos::Filter {
+        let mut it = r.split(',');
+        let (addr, lo, hi) = (it.next().unwrap_or(""), it.next().unwrap_or(""), it.next().unwrap_or(""));
+        (addr.to_string(), "prefix-length-range".to_string(), format!("/{lo}-/{hi}"))
+    };
+    let regular = || Policy {
+        terms: vec![
+            Term { name: "inet".into(), family: Some("inet".into()), filters: [rf(R4[0])].into_iter().collect(), accept: true, other: BTreeSet::new() },
+            Term { name: "inet6".into(), family: Some("inet6".into()), filters: [rf(R6[0])].into_iter().collect(), accept: true, other: BTreeSet::new() },
+        ],
+        then_reject: true,
+        has_comment: true,
+        other: BTreeSet::new(),
+    };
+    let mut out: Vec<(&'static str, Instance)> = Vec::new();
+    let mut add = |what: &'static str, f: &dyn Fn(&mut Policy)| {
+        let mut p = regular();
+        f(&mut p);
+        let mut i = Instance::default();
+        _ = i.policies.insert("p".to_string(), p);
+        out.push((what, i));
+    };
+    add("regular (control)", &|_| {});
+    for (what, m, v) in [("route-filter orlonger", "orlonger", ""), ("route-filter exact", "exact", ""), ("route-filter upto", "upto", "/24"), ("route-filter longer", "longer", ""), ("route-filter through", "through", "10.0.0.0/16")] {
+        let (m, v) = (m.to_string(), v.to_string());
+        add(what, &move |p| {
+            _ = p.terms[0].filters.insert(("10.0.0.0/8".into(), m.clone(), v.clone()));
+        });
+    }
+    add("route-filter without match type", &|p| {
+        _ = p.terms[0].filters.insert(("10.0.0.0/8".into(), String::new(), String::new()));
+    });
+    add("prefix-length-range outside the alphabet", &|p| {
+        _ = p.terms[0].filters.insert(("10.0.0.0/8".into(), "prefix-length-range".into(), "/8-/32".into()));
+    });
+    add("foreign accept-all term first", &|p| p.terms.insert(0, Term { name: "custom".into(), accept: true, ..Term::default() }));
+    add("foreign accept-all term last", &|p| p.terms.push(Term { name: "custom".into(), accept: true, ..Term::default() }));
+    add("foreign term with a family only", &|p| p.terms.push(Term { name: "custom".into(), family: Some("inet".into()), accept: true, ..Term::default() }));
+    add("inet term lost its family", &|p| p.terms[0].family = None);
+    add("inet term matches the other family", &|p| p.terms[0].family = Some("inet6".into()));
+    add("inet term lost its route-filters", &|p| p.terms[0].filters.clear());
+    add("inet term lost its action", &|p| p.terms[0].accept = false);
+    add("no trailing reject", &|p| p.then_reject = false);
+    add("terms in the other order", &|p| p.terms.reverse());
+    add("only the inet6 term", &|p| {
+        _ = p.terms.remove(0);
+    });
+    add("empty policy", &|p| {
+        p.terms.clear();
+        p.then_reject = false;
+    });
+    out
+}
+
+/// Every input of a one-policy alphabet from every foreign state: whatever the agent sends must on
+/// its own leave a policy that accepts only the evaluated set (sending nothing is fine).
+fn foreign_sweep(sink: &mut dyn FnMut(Finding)) -> (u64, u64, u64, Vec<Value>) {
+    let a = Alphabet { label: "foreign installed states, one policy, 3 ranges per family", names: vec!["p".to_string()], r4: R4.to_vec(), r6: R6.to_vec(), max_depth: Some(1) };
+    let ins = inputs(&a);
+    let (mut trans, mut applies, mut updates_sent) = (0u64, 0u64, 0u64);
+    let mut per_state = Vec::new();
+    for (what, state) in foreign_states() {
+        let xml = state.render_reply("2");
+        let readable = parse_installed(&xml).is_ok();
+        let mut sent_here = 0u64;
+        let mut per_key: HashMap<String, u32> = HashMap::new();
+        for input in &ins {
+            let r = step_from(&a, &state, &xml, input, true);
+            trans += 1;
+            applies += r.applies;
+            sent_here += r.payloads as u64;
+            for mut f in r.findings {
+                f.key = format!("{}:foreign-state:{}", f.key.split(':').take(2).collect::<Vec<_>>().join(":"), what.replace(' ', "-"));
+                f.what = format!("installed state with {what}: {}", f.what);
+                let c = per_key.entry(f.key.clone()).or_insert(0);
+                *c += 1;
+                if *c <= 2 {
+                    sink(f);
+                }
+            }
+        }
+        updates_sent += sent_here;
+        per_state.push(json!({"foreign_state": what, "the_agent_reads_it": readable, "inputs": ins.len(), "updates_sent": sent_here}));
+    }
+    (trans, applies, updates_sent, per_state)
+}
+
 /// Malformed annotation on a managed, installed policy (C03): driven through the real candidate
 /// reader, then the real plan.
 fn malformed_annotation_cases(sink: &mut dyn FnMut(Finding)) -> u64 {
@@ -495,6 +596,11 @@ pub fn run(id: &str, report: &mut Report, budget: Duration) {
             "payloads_rendered": st.payloads, "reference_applies": st.applies, "states_the_agent_cannot_read_back": st.unreadable_states,
         }));
     }
+    let (f_trans, f_applies, f_updates, f_states) = foreign_sweep(&mut |f| pending.push(f));
+    total_trans += f_trans;
+    total_applies += f_applies;
+    report.set("foreign_installed_states", Value::Array(f_states));
+    report.set("updates_sent_from_foreign_states", f_updates);
     let malformed = if id == "C03" { malformed_annotation_cases(&mut |f| pending.push(f)) } else { 0 };
     for f in pending {
         if f.property == id {
